@@ -37,6 +37,13 @@ inline int bspline_piece(const double* knots, const unsigned nknots,
 	if (left == int(nknots)-n-2)
 		while (left < int(nknots)-1 && x > knots[left+1])
 			left++;
+	/*
+	 * If all knots of the fully supported range coincide, that range is
+	 * the single point x and `left' is an empty interval: use the
+	 * polynomial piece to its left, as at the top of any supported range.
+	 */
+	while (left > 0 && knots[left] == knots[left+1] && x == knots[left])
+		left--;
 	return left;
 }
 
@@ -77,6 +84,9 @@ void bsplvb_simple(const double* knots, const unsigned nknots,
 	if (left == int(nknots)-degree-1)
 		while (left < int(nknots)-1 && x > knots[left+1])
 			left++;	
+	/* Single-point supported range: see bspline_piece() */
+	while (left > 0 && knots[left] == knots[left+1] && x == knots[left])
+		left--;
 	
 	/* 
 	 * NB: if left < degree-1 or left > nknots-degree-1,
@@ -168,6 +178,9 @@ void bspline_nonzero(const double* knots, const unsigned nknots,
 	if (left == int(nknots)-n-2)
 		while (left < int(nknots)-1 && x > knots[left+1])
 			left++;
+	/* Single-point supported range: see bspline_piece() */
+	while (left > 0 && knots[left] == knots[left+1] && x == knots[left])
+		left--;
 	
 	double delta_r[n+1], delta_l[n+1];
 	
@@ -247,6 +260,9 @@ void bspline_deriv_nonzero(const double* knots, const unsigned nknots,
 	if (left == int(nknots)-n-2)
 		while (left < int(nknots)-1 && x > knots[left+1])
 			left++;
+	/* Single-point supported range: see bspline_piece() */
+	while (left > 0 && knots[left] == knots[left+1] && x == knots[left])
+		left--;
 	
 	/* Get the non-zero n-1th order B-splines at x */
 	bsplvb(knots, x, left, 0 /* jlow */, n /* jhigh */,
